@@ -199,3 +199,64 @@ def tolist_nested(a, as_tuple=False):
             return tuple(conv(i) for i in x) if isinstance(x, list) else x
         return conv(lst)
     return lst
+
+
+# ------------------------------------------------------------------ index expressions (JSON-encoded)
+def build_index(ix):
+    """JSON index spec -> Python index object."""
+    t = ix['t']
+    if t == 'int':
+        return int(ix['v'])
+    if t == 'npint':
+        return np.int64(ix['v'])
+    if t == 'slice':
+        return slice(*ix['v'])
+    if t == 'ell':
+        return Ellipsis
+    if t == 'none':
+        return None
+    if t == 'tuple':
+        return tuple(build_index(i) for i in ix['v'])
+    if t == 'intarr':
+        return np.array(ix['v'], dtype='int64')
+    if t == 'intlist':
+        return list(ix['v'])
+    if t == 'mask':
+        return np.array(ix['v'], dtype=bool)
+    if t == 'str':
+        return ix['v']
+    if t == 'float':
+        return float(ix['v'])
+    if t == 'dict':
+        return {}
+    raise ValueError(t)
+
+
+@st.composite
+def st_basic_index1(draw, n):
+    """One basic index component for an axis of length n (may be out of range)."""
+    k = draw(st.sampled_from(['int', 'slice', 'slice', 'ell', 'full']))
+    if k == 'int':
+        return {'t': 'int', 'v': draw(st.integers(-n - 2, n + 1))}
+    if k == 'slice':
+        b = st.one_of(st.none(), st.integers(-n - 2, n + 2))
+        return {'t': 'slice', 'v': [draw(b), draw(b), draw(st.one_of(st.none(), st.sampled_from([1, 2, -1, -2, 3])))]}
+    if k == 'ell':
+        return {'t': 'ell'}
+    return {'t': 'slice', 'v': [None, None, None]}
+
+
+@st.composite
+def st_basic_index(draw, shape):
+    n = draw(st.integers(1, len(shape)))
+    comps = [draw(st_basic_index1(shape[i])) for i in range(n)]
+    # at most one ellipsis
+    seen = False
+    for c in comps:
+        if c['t'] == 'ell':
+            if seen:
+                c.update({'t': 'slice', 'v': [None, None, None]})
+            seen = True
+    if len(comps) == 1 and draw(st.booleans()):
+        return comps[0]
+    return {'t': 'tuple', 'v': comps}
